@@ -97,16 +97,19 @@ def r1_equality_table(ctx):
         arm = hir.arms_for_pair(m, VALUE, VALUE, v, v)[0][1]
         keys = hir.call_keys(arm["body"]) + hir.method_names(arm["body"])
         ok = all(any(k.endswith(n) for k in keys) for n in needs)
+        qs = hir.quantifiers(arm["body"], lambda c: "values_equal" in (hir._callee_key(c) or c.get("key") or ""))
+        if "unknown" in qs or not qs:
+            raise CheckError("%s: the element-wise comparison of the %s arm of values_equal has a shape that cannot be classified (%s)" % (R, v, qs))
         if v == "Tuple":
             ok = ok and sum(1 for k in hir.call_keys(arm["body"]) if k.endswith("canonical_tuple")) >= 2
-            ok = ok and any(k == "all" for k in hir.method_names(arm["body"])) and not any(k == "any" for k in hir.method_names(arm["body"]))
+            ok = ok and "all" in qs and "any" not in qs
         if v == "Function":
             binds = [nm for nm, path in hir.pat_bindings(arm["pat"]) if path and path[-1][1] == 0]
             idx_eq = False
             for x in hir.walk(arm["body"]):
                 if x["e"] == "binary" and x["op"] == "Eq" and set(hir.local_names(x)) >= set(binds) and len(binds) == 2:
                     idx_eq = True
-            ok = ok and idx_eq and any(k == "all" for k in hir.method_names(arm["body"]))
+            ok = ok and idx_eq and "all" in qs and "any" not in qs
         ctx.check(ok, R, "%s|%s-arm" % (fn["key"], v), "%s arm: %s" % (v, ", ".join(needs)),
                   "%s arm no longer compares %s" % (v, needs), "%s:%d" % (fn["file"], arm["ln"]))
     # Equal instruction uses values_equal
